@@ -268,11 +268,10 @@ impl MqttShared {
         flags.remove(Flags::WRB_ENABLED);
         self.flags.set(flags);
 
-        // streaming waiter
-        if let Some(tx) = self.streaming_waiter.take()
-            && tx.send(()).is_ok()
-        {
-            return;
+        // streaming waiter; senders parked on back-pressure must be released as well,
+        // nothing else would wake them once the stream is complete
+        if let Some(tx) = self.streaming_waiter.take() {
+            let _ = tx.send(());
         }
 
         // check if there are waiters
